@@ -91,6 +91,15 @@ class Ctx(object):
         self.transitions += r.states
         for k, v in r.coverage.items():
             self.coverage_actions[name + "." + k] = v[1]
+        if r.ncases and getattr(r, "cases_path", None) and os.path.exists(r.cases_path):
+            # TLC's 16 workers print the cases in a run-dependent order; everything downstream that depends on a case's
+            # position (seeded choices of index widths / encodings, evenly spaced sampling) must not: canonical order
+            import subprocess as _sp
+            env = dict(os.environ, LC_ALL="C")
+            rc = _sp.call(["sort", "-S", "3G", "--parallel=8", "-o", r.cases_path, r.cases_path], env=env)
+            if rc != 0:
+                raise MachineryError("could not sort the exported cases of phase %s" % name)
+            ph["cases_sorted"] = True
         if replay_cases and r.ncases:
             built = self.build(variant)
             stats, fails = replay.replay_cases(built["worker"], r.cases_path, seed=self.seed, env=worker_env,
